@@ -967,6 +967,18 @@ func (fx *FnExec) resolveLocal(st *State, lp *Loop, name string) (Val, bool) {
 		obj = cands[0]
 	}
 	if obj == nil {
+		// a loop that an "extract function" refactoring moved into a helper executed inline: names the helper
+		// does not declare (the caller's receiver, an outer loop's counter) are those of the calling frames
+		if lp.fn != fx.fn {
+			for i := len(st.callStack) - 1; i >= 0; i-- {
+				if v, ok := fx.resolveAt(st, st.callStack[i], name); ok {
+					return v, true
+				}
+				if p, ok := fx.params[name]; ok && st.callStack[i].Parent() == fx.fn {
+					return p, true
+				}
+			}
+		}
 		return Val{}, false
 	}
 	tv, ok := obj.(*types.Var)
@@ -2305,8 +2317,8 @@ func (fx *FnExec) closureSpec(st *State, in *ssa.MakeClosure, fn *ssa.Function, 
 // after call instruction in has returned res.
 func (fx *FnExec) callGhosts(st *State, in *ssa.Call, recv *Val, res []Val) {
 	fc := fx.fc
-	if fc == nil || len(fc.CallGhosts) == 0 || in.Parent() != fx.fn {
-		return
+	if fc == nil || len(fc.CallGhosts) == 0 || (in.Parent() != fx.fn && fx.eng.contractOf(in.Parent()) != nil) {
+		return // (calls inside a helper without a contract, executed inline, count as calls of the function under verification)
 	}
 	nameOf := func(c *ssa.Call) string {
 		cc := c.Common()
@@ -2326,7 +2338,7 @@ func (fx *FnExec) callGhosts(st *State, in *ssa.Call, recv *Val, res []Val) {
 		return
 	}
 	ord := 0
-	for _, b := range fx.fn.Blocks {
+	for _, b := range in.Parent().Blocks {
 		for _, x := range b.Instrs {
 			if c, ok := x.(*ssa.Call); ok && nameOf(c) == me {
 				ord++
